@@ -239,10 +239,24 @@ Fields(m) ==
           <<5, "scalar", FALSE, "semantic">>}
     [] OTHER -> {}
 
+(* the messages of descriptor.proto; FieldTab is the table as one constant value (evaluated once) *)
+SchemaMessages ==
+  {"FileDescriptorSet", "FileDescriptorProto", "DescriptorProto", "DescriptorProto.ExtensionRange",
+   "DescriptorProto.ReservedRange", "ExtensionRangeOptions", "ExtensionRangeOptions.Declaration",
+   "FieldDescriptorProto", "OneofDescriptorProto", "EnumDescriptorProto",
+   "EnumDescriptorProto.EnumReservedRange", "EnumValueDescriptorProto", "ServiceDescriptorProto",
+   "MethodDescriptorProto", "FileOptions", "MessageOptions", "FieldOptions", "FieldOptions.EditionDefault",
+   "FieldOptions.FeatureSupport", "OneofOptions", "EnumOptions", "EnumValueOptions", "ServiceOptions",
+   "MethodOptions", "UninterpretedOption", "UninterpretedOption.NamePart", "FeatureSet",
+   "FeatureSet.VisibilityFeature", "FeatureSetDefaults", "FeatureSetDefaults.FeatureSetEditionDefault",
+   "SourceCodeInfo", "SourceCodeInfo.Location", "GeneratedCodeInfo", "GeneratedCodeInfo.Annotation"}
+FieldTab == [m \in SchemaMessages |-> Fields(m)]
+
 (* <<num, type, repeated, name>> of field `num` of message m, with the case's extensions `exts`
    (a set of <<extendee, num, type, repeated>>) and custom message types `custom`
    (a set of <<message, num, type, repeated>>); <<>> when there is none *)
-FieldsOf(m, custom) == Fields(m) \cup {<<f[2], f[3], f[4], "custom">> : f \in {g \in custom : g[1] = m}}
+FieldsOf(m, custom) == IF m \in SchemaMessages THEN FieldTab[m]
+                       ELSE {<<f[2], f[3], f[4], "custom">> : f \in {g \in custom : g[1] = m}}
 Lookup(m, num, inOpt, exts, custom) ==
   LET own == {f \in FieldsOf(m, custom) : f[1] = num}
       ext == IF inOpt THEN {<<e[2], e[3], e[4], "ext">> : e \in {x \in exts : x[1] = m /\ x[2] = num}} ELSE {}
@@ -306,15 +320,4 @@ SpanProblems(s, widths) ==
                 ELSE {"span_line_outside_file"})
           \cup (IF el < sl \/ (el = sl /\ ec < sc) THEN {"span_start_after_end"} ELSE {})
 
-(* the schema as JSON-able data, for the run-time cross-check against descriptorpb *)
-SchemaMessages ==
-  {"FileDescriptorSet", "FileDescriptorProto", "DescriptorProto", "DescriptorProto.ExtensionRange",
-   "DescriptorProto.ReservedRange", "ExtensionRangeOptions", "ExtensionRangeOptions.Declaration",
-   "FieldDescriptorProto", "OneofDescriptorProto", "EnumDescriptorProto",
-   "EnumDescriptorProto.EnumReservedRange", "EnumValueDescriptorProto", "ServiceDescriptorProto",
-   "MethodDescriptorProto", "FileOptions", "MessageOptions", "FieldOptions", "FieldOptions.EditionDefault",
-   "FieldOptions.FeatureSupport", "OneofOptions", "EnumOptions", "EnumValueOptions", "ServiceOptions",
-   "MethodOptions", "UninterpretedOption", "UninterpretedOption.NamePart", "FeatureSet",
-   "FeatureSet.VisibilityFeature", "FeatureSetDefaults", "FeatureSetDefaults.FeatureSetEditionDefault",
-   "SourceCodeInfo", "SourceCodeInfo.Location", "GeneratedCodeInfo", "GeneratedCodeInfo.Annotation"}
 =============================================================================
